@@ -647,6 +647,10 @@ pub fn worker(a: &Args) -> i32 {
         _ => die("unknown --mode"),
     }
     out.wall_s = t0.elapsed().as_secs_f64();
+    if !out_path.is_empty() {
+        crate::write_hashes(&out_path, "nontrivial", &out.nontrivial_hashes);
+        out.nontrivial_hashes.clear();
+    }
     let js = serde_json::to_string(&out).unwrap();
     if out_path.is_empty() {
         println!("{js}");
